@@ -588,6 +588,57 @@ fn sequence_of_length(rng: &mut Rng, rep: &mut Report, n_ops: usize) {
     }
 }
 
+/// After a fill with `v`: the first pixel (by column and byte) whose bits in the page image are not all `v`. Spare bits
+/// above the last row are not looked at.
+fn first_wrong_dot(bytes: &[u8], w: u32, h: u32, v: bool) -> Option<String> {
+    let cb = (h as usize).div_ceil(8);
+    let last_mask: u8 = if h % 8 == 0 { 0xFF } else { (1u8 << (h % 8)) - 1 };
+    let data = bytes.get(4..4 + (w as usize) * cb)?;
+    for (x, col) in data.chunks(cb).enumerate() {
+        let full = if v { 0xFFu8 } else { 0 };
+        if let Some(k) = col[..cb - 1].iter().position(|b| *b != full) {
+            return Some(format!("byte {} of column {} (image byte {}) is {:#04x}", k, x, 4 + x * cb + k, col[k]));
+        }
+        let lastb = col[cb - 1] & last_mask;
+        if lastb != (full & last_mask) {
+            return Some(format!("the last byte of column {} (image byte {}) is {:#04x}", x, 4 + x * cb + cb - 1, col[cb - 1]));
+        }
+    }
+    None
+}
+
+/// Pages of one to sixteen MiB (their data ends on, before and after the 2^20 and 2^24 byte marks), new and over the
+/// caller's zeroed bytes: filled, cleared and filled again, every pixel read off the bytes after each.
+fn megabyte_pages_filled(rep: &mut Report) {
+    for (w, h) in [(1u32 << 20, 9u32), (1 << 20, 8), (65_536, 128), (65_537, 128), (65_535, 128), (3, 1 << 23), (1 << 17, 64), ((1 << 17) + 1, 64), (1 << 21, 64), (2_097_151, 8), (5, (1 << 24) + 8)] {
+        let sig = format!("megabyte|{}x{}", w, h);
+        rep.case(Some(fnv(sig.as_bytes())));
+        for borrowed in [false, true] {
+            let backing = if borrowed { vec![0u8; refs::padded_len(w, h)] } else { vec![] };
+            let r = catch(std::panic::AssertUnwindSafe(|| -> Result<Option<String>, String> {
+                let mut page = if borrowed { Page::from_bytes(w, h, &backing[..]).map_err(|e| e.to_string())? } else { Page::new(PageId(0), w, h) };
+                let header: [u8; 4] = [page.as_bytes()[0], page.as_bytes()[1], page.as_bytes()[2], page.as_bytes()[3]];
+                for v in [true, false, true] {
+                    page.set_all_pixels(v);
+                    if let Some(what) = first_wrong_dot(page.as_bytes(), w, h, v) {
+                        return Ok(Some(format!("after set_all_pixels({}) {}", v, what)));
+                    }
+                    if page.as_bytes().len() != refs::padded_len(w, h) || page.as_bytes()[..4] != header {
+                        return Ok(Some("the header or the length changed".into()));
+                    }
+                }
+                Ok(None)
+            }));
+            match r {
+                Ok(Ok(None)) => rep.count("megabyte_pages_filled_and_scanned"),
+                Ok(Ok(Some(what))) => rep.violation(MON, "fill_leaves_pixels_on_a_large_page", &sig, format!("{}x{} page ({}): {}", w, h, if borrowed { "over the caller's bytes" } else { "new" }, what), J::obj(vec![("workload", J::s("megabyte pages")), ("width", J::Int(i128::from(w))), ("height", J::Int(i128::from(h))), ("observed", J::s(what.clone()))])),
+                Ok(Err(e)) => rep.violation(MON, "well_formed_page_refused", &sig, format!("from_bytes refused a zeroed {}x{} page of the padded length: {}", w, h, e), J::Null),
+                Err(p) => rep.violation(MON, "panic", &sig, format!("{}x{} page: panic {} at {}", w, h, p.msg, short_loc(&p.loc)), J::Null),
+            }
+        }
+    }
+}
+
 /// Pages of half a gigabyte — sizes at which the NUMBER OF DOTS (not either dimension, not the byte length) passes 2^32:
 /// 65 537 x 65 536, 65 536 x 65 537, (2^28 + 1) x 16, 2^16 x 2^16 and one just below. They are built over zeroed buffers
 /// (which the system hands out lazily, so only the pages touched cost anything); a handful of pixels — the corners, the
@@ -653,6 +704,10 @@ fn gigantic_pages(rng: &mut Rng, rep: &mut Report) {
                                 bad.push(format!("after set_all_pixels({}) pixel ({},{}) reads {}", v, x, y, !v));
                                 break;
                             }
+                        }
+                        // ... and EVERY pixel, read off the bytes column by column
+                        if let Some(w) = first_wrong_dot(page.as_bytes(), w, h, v) {
+                            bad.push(format!("after set_all_pixels({}) {}", v, w));
                         }
                     }
                     filled_gigantic.set(filled_gigantic.get() + 1);
@@ -724,12 +779,14 @@ pub fn run(ctx: &Ctx) -> Outcome {
         gigantic_pages(&mut ctx.rng("gigantic", 0), &mut at_exit);
         pages_over_other_pages_bytes(&mut ctx.rng("aliased", 0), &mut at_exit);
         crate::c07::uniform_pages_with_every_id(&mut at_exit);
+        megabyte_pages_filled(&mut at_exit);
         crate::exitprobe::check_migration("page", MON, &mut at_exit);
         report.merge(at_exit);
     }
     let floors = vec![
         floor("every page asked for could be built (otherwise the bounds rules were not observed on those sizes)", report.get("pages_that_could_not_be_built") == 0, report.get("pages_that_could_not_be_built")),
         floor("pages over bytes whose pixel area is all one value, with every id 0..=255 (3 sizes, borrowed and owned), filled and cleared in both orders", report.get("uniform_pages_with_every_id") == 3 * 256 * 4, report.get("uniform_pages_with_every_id")),
+        floor("pages of one to sixteen MiB around the 2^20 and 2^24 byte marks, new and over the caller's bytes, filled / cleared / filled with every pixel read off the bytes", report.get("megabyte_pages_filled_and_scanned") == 22, report.get("megabyte_pages_filled_and_scanned")),
         floor("two half-gigabyte pages filled and cleared with set_all_pixels, every probed pixel read after each", report.get("gigantic_pages_filled_and_cleared") == 2, report.get("gigantic_pages_filled_and_cleared")),
         floor("pages whose dot count passes 2^32 (65537x65536, 65536x65537, (2^28+1)x16, ...), owned and borrowed, probed at the corners, past the 2^32-dot mark and at random", report.get("gigantic_pages_probed") == 24, report.get("gigantic_pages_probed")),
         floor("out-of-bounds accesses made from a destructor while another panic unwinds (every size of the box)", report.get("oob_accesses_made_while_a_panic_unwinds") > 10_000 && report.get("oob_while_unwinding_not_reached") == 0, report.get("oob_accesses_made_while_a_panic_unwinds")),
